@@ -542,6 +542,7 @@ def run_check(prop, tier, seed, budget_scale=1.0):
     reqs = [0, 0, 0, 0]
     samples = []
     invalid_total = 0
+    invalid_notes = []
     infra_problems = []
 
     for spec in batches_spec:
@@ -572,9 +573,13 @@ def run_check(prop, tier, seed, budget_scale=1.0):
                 fired[i] += r.get("fired", [0, 0, 0, 0])[i]
                 reqs[i] += r.get("req", [0, 0, 0, 0])[i]
         invalid_total += len(b.invalid)
-        for idx, why, plan in b.invalid:
-            if not why.startswith("model:"):
-                infra_problems.append("generated plan %d invalid: %s" % (idx, why))
+        # a generated plan that leaves the contract model is skipped, never executed and never a verdict; it is a defect of the
+        # generator (rxsim lint finds none in 60 000 plans per generator), so a handful is only counted, a systematic problem
+        # (more than 1 in 200 plans of a batch) is an infrastructure error
+        gen_invalid = [(idx, why) for idx, why, plan in b.invalid if not why.startswith("model:")]
+        invalid_notes.extend("batch %s plan %d: %s" % (spec.get("name"), idx, why) for idx, why in gen_invalid[:3])
+        if len(gen_invalid) * 200 > max(nrun, 1):
+            infra_problems.append("%d of %d generated plans of batch %s are invalid, e.g. plan %d: %s" % (len(gen_invalid), nrun, spec.get("name"), gen_invalid[0][0], gen_invalid[0][1]))
         if b.hangs:
             infra_problems.append("%d worker(s) produced no result line for too long and were killed in batch %s" % (b.hangs, spec.get("name")))
         if b.unreported_deaths:
@@ -747,6 +752,7 @@ def run_check(prop, tier, seed, budget_scale=1.0):
             "unconfirmed_small_config_anomalies": unconfirmed,
             "components": propcfg.COMPONENTS,
             "infrastructure_problems": infra_problems[:10],
+            "invalid_generated_plans_skipped": invalid_total, "invalid_generated_plan_examples": invalid_notes[:6],
         },
         "assumptions": cfg["assumptions"],
         "wall_s": round(wall, 2),
